@@ -46,6 +46,7 @@ type E2Params struct {
 	SyncFaults []string `json:"sync_faults"` // transport faults offered on SDK Sync(): drop | dup (bounded by max_faults)
 	Foreign    bool     `json:"foreign"`     // offer foreign requests and ResetCollection (C17)
 	Tolerant   bool     `json:"tolerant"`    // request errors are outcomes, not violations (fault enumeration)
+	Patches    []string `json:"patches"`     // REST PatchDocument targets offered as actions (C19)
 }
 
 type e2dt struct {
@@ -240,6 +241,11 @@ func (m *e2Machine) Enabled() []pt.Action {
 			}
 		}
 	}
+	for _, k := range m.p.Keys {
+		for _, t := range m.p.Patches {
+			as = append(as, pt.Action{Op: "patch", R: 0, T: k, V: t})
+		}
+	}
 	for _, c := range m.cls {
 		if m.dead[c.idx] {
 			continue
@@ -431,6 +437,46 @@ func (m *e2Machine) Apply(a pt.Action) (v *pt.Violation) {
 	case "foreign":
 		m.nforeign++
 		return m.foreignRequest(c, a)
+	case "patch":
+		var resp *model.PatchMessage
+		var err error
+		store0 := m.readStore()
+		if !callWithDeadline(func() {
+			resp, err = m.sys.Svc().PatchDocument(gocontext.Background(), &model.PatchMessage{Collection: c.coll, Key: a.T, Json: a.V})
+		}) {
+			exitWith(viol("C16:request-never-answered:patch", "PatchDocument(%s, %s) never returned", a.T, a.V))
+		}
+		m.drain()
+		m.last = fmt.Sprintf("patch err=%v", err != nil)
+		if err != nil {
+			return viol("C19:rest-patch-refused", "PatchDocument(%s, %s) returned %v", a.T, a.V, err)
+		}
+		if canonJSON(resp.Json) != canonJSON(a.V) {
+			return viol("C19:rest-response-differs", "PatchDocument(%s, %s) answered %s", a.T, a.V, resp.Json)
+		}
+		sv, serr := m.serverView(c.coll, a.T)
+		if serr != nil {
+			return viol("C19:rest-patched-document-not-rebuildable", "%v", serr)
+		}
+		want := "json=" + canonJSON(a.V) + " "
+		if !strings.HasPrefix(canonViewJSON(sv), want) {
+			return viol("C19:rest-stored-document-differs", "after PatchDocument(%s, %s) the document rebuilt from the store reads %s", a.T, a.V, sv)
+		}
+		// the log gained exactly the patch's operations: no snapshot operation in the middle of a log
+		for _, dt := range m.readStore() {
+			if dt.key != a.T {
+				continue
+			}
+			old := 0
+			if o := store0[dt.duid]; o != nil {
+				old = len(o.ops)
+			}
+			for i, op := range dt.ops {
+				if i >= old && i > 0 && strings.HasSuffix(op.typ, "_SNAPSHOT") {
+					return viol("C19:rest-patch-pushed-a-snapshot-operation", "PatchDocument(%s) appended a %s operation at log position %d of an existing log (every subscriber resets to it)", a.T, op.typ, i+1)
+				}
+			}
+		}
 	case "open":
 		d := m.openDatatype(c, a.T, a.K, c.typ)
 		if d == nil {
@@ -687,12 +733,23 @@ func (m *e2Machine) checkLog() *pt.Violation {
 			return viol("C06:operations-without-datatype", "operations stored for %s but no datatype document", duid)
 		}
 		perClient := map[string]uint64{}
+		registered := map[string]bool{}
+		for _, cd := range m.sys.DB.Docs(schema.CollectionNameClients) {
+			id, _ := getS(cd, "_id")
+			registered[id] = true
+		}
+		for _, c := range m.cls {
+			registered[c.cuid] = true // (a reset may have purged the document)
+		}
 		for i, op := range dt.ops {
 			if op.sseq != uint64(i+1) {
 				return viol("C06:log-gap-or-repeat", "datatype %s (%s): operation %d has sseq %d", dt.key, duid, i, op.sseq)
 			}
 			if op.id != fmt.Sprintf("%s:%d", duid, op.sseq) {
 				return viol("C06:operation-id-format", "operation id %q for sseq %d", op.id, op.sseq)
+			}
+			if !registered[op.cuid] {
+				continue // pushed by the administrative volatile client (REST patch): rebuilt replicas restart their numbering
 			}
 			if op.seq != perClient[op.cuid]+1 {
 				return viol("C06:client-order-broken", "datatype %s: client %s's operation at sseq %d has seq %d after %d", dt.key, op.cuid, op.sseq, op.seq, perClient[op.cuid])
@@ -1356,4 +1413,16 @@ func (m *e2Machine) checkSnapshots() *pt.Violation {
 		}
 	}
 	return nil
+}
+
+// canonViewJSON canonicalizes the json= part of a document view.
+func canonViewJSON(view string) string {
+	if !strings.HasPrefix(view, "json=") {
+		return view
+	}
+	i := strings.Index(view, " reads=")
+	if i < 0 {
+		return view
+	}
+	return "json=" + canonJSON(view[5:i]) + view[i:]
 }
